@@ -19,6 +19,7 @@ def check(chk, thorough=False):
     chk.run('C11.b', 'R-PAIR', 'an edit of a parsed block payload is followed by invalidating the cached encoded data before the next encode', lambda ob: c11b(tree, ob), floor=1)
     chk.run('C11.c', 'R-ITER+R-FLOW', 'old Previous Node / Age blocks are all removed (loop not invalidated by the removal), exactly one Previous Node naming this node is added, hop count + 1, age = now - creation only when creation time is known', lambda ob: c11c(tree, ob), floor=5)
     chk.run('C11.d', 'R-FLOW', 'new blocks go before the payload with an unused number; the payload block is number 1; duplicates are rejected; removal finds the block whatever its position', lambda ob: c11d(tree, ob), floor=5)
+    chk.run('C11.g', 'R-GUARD', 'a bundle that must not be fragmented, or is a fragment already, is never cut (its flags, payload and fragment fields stay as received) (= C05.a)', lambda ob: _c05a(tree, ob), floor=2)
     chk.run('C11.f', 'sibling', 'what is decoded is re-encoded unchanged: codec agreement, preserved flag bits / EID text / time values, RFC layouts (= C02.a, C02.c, C02.e)', lambda ob: _c02(tree, ob), floor=40)
     chk.run('C11.e', 'R-ORDER', 'CRCs are computed on the bytes actually sent (= C08.a)', lambda ob: c08a(tree, ob), floor=3)
 
@@ -178,6 +179,11 @@ def c11b(tree, ob):
                         from_ctr = True
                     if val is not None and isinstance(val, ast.Call) and isinstance(val.func, ast.Attribute) and val.func.attr in ('block_type', 'block_num'):
                         from_ctr = True
+                    elif val is not None and isinstance(val, ast.AST) and not isinstance(st, ast.For):
+                        # an element picked out of a named list of blocks
+                        full = fv.value_at(val, st, depth=3)
+                        if any(isinstance(x, ast.Call) and isinstance(x.func, ast.Attribute) and x.func.attr in ('block_type', 'block_num') for x in ast.walk(full)):
+                            from_ctr = True
                 if not from_ctr:
                     continue
                 n += 1
@@ -270,6 +276,11 @@ def c11c(tree, ob):
     if not fv.dominates(a, snd)[0]:
         ob.violate(AGENT, Q, src(a), 'bundle can be forwarded without the Previous Node block', a)
     # hop count
+    if not kinds.get('HopCountBlock'):
+        loose = [n for n in walk_local(fv.func) if isinstance(n, ast.AugAssign) and src(n.target).endswith('.payload.count')]
+        if loose:
+            ob.violate(AGENT, Q, src(loose[0]), 'the hop count is advanced for one picked block, not for every Hop Count block of the bundle: a further one leaves with the count it arrived with', loose[0])
+            return
     hl = one(kinds.get('HopCountBlock', []), 'hop count loop', ob)
     incs = [n for n in walk_local(hl) if isinstance(n, ast.AugAssign) and src(n.target) == '{}.payload.count'.format(src(hl.target))]
     if len(incs) != 1 or not isinstance(incs[0].op, ast.Add) or not (isinstance(incs[0].value, ast.Constant) and incs[0].value.value == 1):
@@ -311,6 +322,11 @@ def c11c(tree, ob):
                        'time since creation is destroyed', al)
     if al is not None and fv.node(al.iter) in fv.cfg.reachable([fv.node(g)]):
         ob.violate(AGENT, Q, src(g), 'the new Age block is added before the old ones are removed', g)
+
+
+def _c05a(tree, ob):
+    from .c05 import c05a
+    return c05a(tree, ob)
 
 
 def c11d(tree, ob):
